@@ -103,7 +103,7 @@ def gen(spec, t, depth, al, cfg, path=""):
             elems.append(gen(spec, t["element"], depth + 1, al, cfg, path + "[%d]" % j))
             b = al.bit(path + ":len>%d" % j)
             if prev is not None:
-                al.pre.append("(not b%d) or b%d" % (b, prev))
+                al.pre.append("b%d <= b%d" % (b, prev))
             prev = b
             bits.append(b)
         return {"k": "list", "elems": elems, "bits": bits, "type": t0}
